@@ -11,8 +11,8 @@ PVs(n) == IF n = 0 THEN {<<>>} ELSE IF n = 1 THEN {<<t>> : t \in StrToks} ELSE {
 ToksForKey(k) == IF FieldOfKey(k) = "tags" THEN StrToks ELSE TokensOf(FieldOfKey(k))
 Pairs(keys) == UNION {{<<k, t>> : t \in ToksForKey(k)} : k \in keys}
 \* the product is kept small by letting only one source carry more than one assignment
-QueryKeysQuick == {"name", "num", "flag", "kindE", "kind_e", "wrapped", "ts", "child.name", "pageSize", "tags", "parent"}
-BodyFields(r) == IF RuleInfo(r).body = "child" THEN {"name"} ELSE {"name", "num", "flag", "kind_e", "wrapped", "ts", "tags"}
+QueryKeysQuick == {"name", "num", "flag", "kindE", "kind_e", "wrapped", "ts", "child.name", "pageSize", "tags", "parent", "u32"}
+BodyFields(r) == IF RuleInfo(r).body = "child" THEN {"name"} ELSE {"name", "num", "flag", "kind_e", "wrapped", "ts", "tags", "u32"}
 
 Init == req = [kind |-> "bind", rule |-> "Post", pv |-> <<>>, query |-> <<>>, body |-> <<>>, msgkind |-> "", nonconf |-> ""] /\ ph = "rule"
 
